@@ -1811,6 +1811,12 @@ pub fn seeds_for_patterns(r: usize) -> Vec<u64> {
 
 /// Runs a case twice and aborts as a machinery error if the two runs differ in anything the oracles
 /// look at (timed packet kinds, service calls, result): a failure must be a function of the schedule.
+/// the same, as a question: do two runs of the case agree in everything the oracles look at?
+pub fn is_deterministic(case: &Case) -> bool {
+    let view = |o: &Obs| (o.packets.iter().map(|(t, p)| (*t, p.kind())).collect::<Vec<_>>(), o.calls.iter().map(|c| (c.t(), c.kind())).collect::<Vec<_>>(), o.result.kind(), o.consumed, o.end_ms);
+    view(&run(case)) == view(&run(case))
+}
+
 pub fn assert_deterministic(case: &Case, what: &str) {
     let view = |o: &Obs| {
         (
